@@ -75,7 +75,9 @@ CLAIMS = {
         note="Partial at proof level: the announcement-derived rosters are checked by differential execution, not proved."),
     "C06": dict(
         technique="Coq proof (full characterisation of VolatileState::remove_user through the channel fold; teardown of a registered / unregistered connection; absent-everywhere corollary of the invariant) + six-way ending sweep with a state-dump oracle on the real server",
-        text="Theorems (props/C06.v): the teardown of a registered connection (the single path of QUIT, EOF, reset, bad text, over-long line, pong timeout, KILL, DIE) deletes exactly its user record - "
+        text="EVERY WAY, one statement over every event after any history (C06_closed_leaves_nothing): whichever connection a step closes - sender of QUIT, of an over-long or ill-encoded line, a peer that "
+             "closed or timed out, a refused connection, the victim of KILL, everybody at DIE - has no connection record afterwards, owns no user, and every name on every roster belongs to a live user of somebody else. "
+             "Theorems (props/C06.v): the teardown of a registered connection (the single path of QUIT, EOF, reset, bad text, over-long line, pong timeout, KILL, DIE) deletes exactly its user record - "
              "so every other record (memberships, modes, invitations) is identical -, removes the nick from the WALLOPS audience, appends one WHOWAS entry, leaves every channel it was not on "
              "untouched and turns every channel it was on into the same channel minus that member and its rank-list entries, or drops it if that leaves it empty and not preconfigured; the slot "
              "count decreases by one; a nick without user record is in no roster, rank list or audience; the end of an unregistered connection changes nothing; as whole steps: a closing event (EOF/reset at any moment, invalid text, over-long line, pong timeout) of a registered connection is exactly its teardown with all these clauses and closes nobody else, and QUIT does the same after the ERROR line (C06_closing_event, C06_quit).",
